@@ -85,6 +85,184 @@ theorem addValues_lists (c : Coll) (kvs : List (Key × Bits)) (hinv : Inv c) :
     rw [hu, hg, hc] at this
     exact this
 
+/-! ### the per-group benchmark lists (`Collection.Benchmarks[group]`) -/
+
+theorem lookup_map_set (bm : List (Str × List Str)) (g g' : Str) (bs : List Str) :
+    (bm.map (fun (kv : Str × List Str) => if kv.1 == g then (kv.1, bs) else (kv.1, kv.2))).lookup g'
+      = if g' = g then (bm.lookup g).map (fun _ => bs) else bm.lookup g' := by
+  induction bm with
+  | nil => by_cases h : g' = g <;> simp [h]
+  | cons kv bm ih =>
+    obtain ⟨k, v⟩ := kv
+    by_cases hk : k = g
+    · subst hk
+      by_cases h : g' = k
+      · subst h; simp [List.lookup]
+      · have : (g' == k) = false := by simpa using h
+        simp only [List.map_cons, beq_self_eq_true, if_true, List.lookup, this, h, if_false] at ih ⊢
+        exact ih
+    · have hkb : (k == g) = false := by simpa using hk
+      by_cases h : g' = g
+      · subst h
+        have : (g' == k) = false := by simpa using (fun e : g' = k => hk e.symm)
+        simp only [List.map_cons, hkb, Bool.false_eq_true, if_false, List.lookup, this, if_true] at ih ⊢
+        exact ih
+      · by_cases h2 : g' = k
+        · subst h2; simp [List.lookup, hkb, h]
+        · have : (g' == k) = false := by simpa using h2
+          simp only [List.map_cons, hkb, Bool.false_eq_true, if_false, List.lookup, this, h] at ih ⊢
+          exact ih
+
+theorem lookup_append_single (bm : List (Str × List Str)) (g g' : Str) (bs : List Str) :
+    (bm ++ [(g, bs)]).lookup g' = match bm.lookup g' with
+      | some v => some v
+      | none => if g' = g then some bs else none := by
+  induction bm with
+  | nil =>
+    by_cases h : g' = g
+    · subst h; simp [List.lookup]
+    · have : (g' == g) = false := by simpa using h
+      simp [List.lookup, this, h]
+  | cons kv bm ih =>
+    obtain ⟨k, v⟩ := kv
+    by_cases h : g' = k
+    · subst h; simp [List.lookup]
+    · have : (g' == k) = false := by simpa using h
+      simp only [List.cons_append, List.lookup, this]
+      exact ih
+
+theorem benchOf_setBench (bm : List (Str × List Str)) (g g' : Str) (bs : List Str) :
+    benchOf (setBench bm g bs) g' = if g' = g then bs else benchOf bm g' := by
+  unfold benchOf setBench
+  cases hl : bm.lookup g with
+  | some v =>
+    simp only [Option.isSome_some, if_true]
+    have := lookup_map_set bm g g' bs
+    rw [show (fun (x : Str × List Str) => match x with | (k, v) => if (k == g) = true then (k, bs) else (k, v))
+          = (fun (kv : Str × List Str) => if kv.1 == g then (kv.1, bs) else (kv.1, kv.2)) from by
+            funext ⟨k, v⟩; rfl]
+    rw [this, hl]
+    by_cases h : g' = g <;> simp [h]
+  | none =>
+    simp only [Option.isSome_none, Bool.false_eq_true, if_false]
+    rw [lookup_append_single]
+    by_cases h : g' = g
+    · subst h; simp [hl]
+    · simp only [h, if_false]
+      cases bm.lookup g' <;> rfl
+
+/-- every metric's benchmark is listed under its group -/
+def InvB (c : Coll) : Prop := ∀ km ∈ c.metrics, km.1.bench ∈ benchOf c.benchmarks km.1.group
+
+theorem invB_empty : InvB ({} : Coll) := by
+  intro km h; simp at h
+
+theorem addValue_bench (c : Coll) (key : Key) (val : Bits) (hinv : InvB c) :
+    (∀ g, benchOf (addValue c key val).benchmarks g =
+        if g = key.group then addString (benchOf c.benchmarks g) key.bench else benchOf c.benchmarks g) ∧
+    InvB (addValue c key val) := by
+  unfold addValue
+  cases h : findMetric c.metrics key with
+  | some m =>
+    have hmem := findMetric_some _ _ _ h
+    have hb := hinv _ hmem
+    simp only at hb
+    constructor
+    · intro g
+      by_cases hg : g = key.group
+      · subst hg; simp [addString_of_mem _ _ hb]
+      · simp [hg]
+    · intro km hkm
+      simp only [List.mem_map] at hkm
+      obtain ⟨⟨k0, m0⟩, h0, rfl⟩ := hkm
+      have := hinv _ h0
+      by_cases hk : (k0 == key) = true <;> simp [hk] <;> exact this
+  | none =>
+    constructor
+    · intro g
+      simp only [benchOf_setBench]
+      by_cases hg : g = key.group
+      · subst hg; simp
+      · simp [hg]
+    · intro km hkm
+      simp only [List.mem_append, List.mem_singleton] at hkm
+      simp only [benchOf_setBench]
+      rcases hkm with hkm | rfl
+      · have := hinv _ hkm
+        by_cases hg : km.1.group = key.group
+        · simp only [hg, if_true]
+          rw [← hg]; exact mem_addString_of_mem _ _ _ this
+        · simp only [hg, if_false]; exact this
+      · simp [mem_addString_self]
+
+theorem addValues_bench (c : Coll) (kvs : List (Key × Bits)) (hinv : InvB c) (g : Str) :
+    let c' := kvs.foldl (fun c kv => addValue c kv.1 kv.2) c
+    benchOf c'.benchmarks g =
+      ((kvs.filter (fun kv => decide (kv.1.group = g))).map (·.1.bench)).foldl addString (benchOf c.benchmarks g) ∧
+    InvB c' := by
+  induction kvs generalizing c with
+  | nil => exact ⟨rfl, hinv⟩
+  | cons kv kvs ih =>
+    obtain ⟨hb, hi⟩ := addValue_bench c kv.1 kv.2 hinv
+    have := ih (addValue c kv.1 kv.2) hi
+    simp only [List.foldl_cons] at this ⊢
+    refine ⟨?_, this.2⟩
+    rw [this.1, hb g]
+    by_cases hg : kv.1.group = g
+    · subst hg
+      simp [List.filter_cons]
+    · have hg' : ¬ g = kv.1.group := fun e => hg e.symm
+      simp [List.filter_cons, hg, hg']
+
+/-! ### which units display as the metric "speed" -/
+
+theorem metricSuffix_values_long : ∀ p ∈ metricSuffix, 5 ≤ p.2.length := by decide +kernel
+
+theorem lookup_none_of_ne (u : Str) (h1 : u ≠ str "ns/op") (h2 : u ≠ str "ns/GC") (h3 : u ≠ str "B/op")
+    (h4 : u ≠ str "MB/s") : metricSuffix.lookup u = none := by
+  unfold metricSuffix
+  have e1 : (u == str "ns/op") = false := by simpa using h1
+  have e2 : (u == str "ns/GC") = false := by simpa using h2
+  have e3 : (u == str "B/op") = false := by simpa using h3
+  have e4 : (u == str "MB/s") = false := by simpa using h4
+  simp only [List.lookup, e1, e2, e3, e4]
+
+theorem speed_length : speed.length = 5 := by decide +kernel
+
+theorem metricOf_speed_iff (u : Str) : metricOf u = speed ↔ (u = str "MB/s" ∨ u = str "speed") := by
+  by_cases h1 : u = str "ns/op"
+  · subst h1; decide +kernel
+  by_cases h2 : u = str "ns/GC"
+  · subst h2; decide +kernel
+  by_cases h3 : u = str "B/op"
+  · subst h3; decide +kernel
+  by_cases h4 : u = str "MB/s"
+  · subst h4; decide +kernel
+  have hl := lookup_none_of_ne u h1 h2 h3 h4
+  unfold metricOf
+  rw [hl]
+  simp only [h4, false_or]
+  split
+  · rename_i s suff hf
+    have hmem := List.mem_of_find?_eq_some hf
+    have hlen := metricSuffix_values_long _ hmem
+    simp only at hlen
+    constructor
+    · intro h
+      have := congrArg List.length h
+      have hd : (str "-").length = 1 := by decide +kernel
+      rw [speed_length] at this
+      simp only [List.length_append, hd] at this
+      omega
+    · intro h
+      -- u = "speed" has no "-unit" suffix: the find? cannot succeed
+      subst h
+      exfalso
+      have : metricSuffix.find? (fun x => match x with | (s, _) => hasSuffix (str "speed") (str "-" ++ s)) = none := by
+        decide +kernel
+      rw [this] at hf; cases hf
+  · exact Iff.rfl
+
 /-! ### tables follow unit order -/
 
 theorem buildTable_unit (T : TestFn) (G : GeoFn) (c : Coll) (a : Bits) (u : Str) (t : Table)
